@@ -1053,7 +1053,9 @@ coap_oscore_decrypt_pdu(coap_session_t *session,
 
     incoming_seq =
         coap_decode_var_bytes8(cose->partial_iv.s, cose->partial_iv.length);
-    rcp_ctx->last_seq = incoming_seq;
+    /* A number accepted from inside the window must not move the window back */
+    if (incoming_seq > rcp_ctx->last_seq)
+      rcp_ctx->last_seq = incoming_seq;
   } else { /* !coap_request */
     /*
      * 8.4 Step 2
